@@ -205,6 +205,7 @@ class Walker:
         proj = lhs["p"]
         if not proj:
             env[l] = val
+            env.pop(("refto", l), None)
             for key in [k for k in fenv if k[0] == l]:
                 del fenv[key]
             return
@@ -232,6 +233,15 @@ class Walker:
                 if st["k"] == "assign":
                     val = self.rv_expr(st["rv"], env, fenv)
                     self.assign(st["lhs"], val, env, fenv, events, bi)
+                    rv = st["rv"]
+                    if not st["lhs"]["p"]:
+                        # remember `_t = &mut _x` / `_t = move _u` (with _u such a reference) for mem::swap/replace
+                        if rv["k"] == "ref" and rv["mut"] and not rv["place"]["p"]:
+                            env[("refto", st["lhs"]["l"])] = rv["place"]["l"]
+                        elif rv["k"] == "ref" and rv["mut"] and rv["place"]["p"] == ["deref"] and ("refto", rv["place"]["l"]) in env:
+                            env[("refto", st["lhs"]["l"])] = env[("refto", rv["place"]["l"])]
+                        elif rv["k"] == "use" and rv["a"].get("k") in ("move", "copy") and not rv["a"]["place"]["p"] and ("refto", rv["a"]["place"]["l"]) in env:
+                            env[("refto", st["lhs"]["l"])] = env[("refto", rv["a"]["place"]["l"])]
                 elif st["k"] == "setdiscr":
                     events.append(("setdiscr", self.place_expr(st["lhs"], env, fenv), st["vidx"], bi))
             t = b["term"]
@@ -261,6 +271,7 @@ class Walker:
                     ce = ("call", None, t.get("fnty"), (self.op_expr(t["fnop"], env, fenv),) + args, (fn.id, bi))
                 events.append(("call", ce))
                 self.assign(t["dest"], ce, env, fenv, events, bi)
+                self.model_mem_fns(t, ce, env, fenv)
                 if t["target"] is None:
                     self._finish(conds, events, None, "diverge", blocks, env, fenv)
                     return
@@ -318,6 +329,38 @@ class Walker:
             # other terminators (resume etc.)
             self._finish(conds, events, None, "diverge", blocks, env, fenv)
             return
+
+    def model_mem_fns(self, t, ce, env, fenv):
+        """std::mem::swap / replace / take on plain locals update the def-use environment"""
+        path = t.get("fn") or ""
+        if not path.startswith("std::mem::") and not path.startswith("core::mem::"):
+            return
+        name = path.rsplit("::", 1)[-1]
+
+        def target(op):
+            if op.get("k") in ("move", "copy") and not op["place"]["p"]:
+                return env.get(("refto", op["place"]["l"]))
+            return None
+        args = t["args"]
+        if name == "swap" and len(args) == 2:
+            a, b = target(args[0]), target(args[1])
+            if a is not None and b is not None:
+                va, vb = self.local_expr(a, env), self.local_expr(b, env)
+                env[a], env[b] = vb, va
+        elif name == "replace" and len(args) == 2:
+            a = target(args[0])
+            if a is not None:
+                old = self.local_expr(a, env)
+                env[a] = self.op_expr(args[1], env, fenv)
+                if not t["dest"]["p"]:
+                    env[t["dest"]["l"]] = old
+        elif name == "take" and len(args) == 1:
+            a = target(args[0])
+            if a is not None:
+                old = self.local_expr(a, env)
+                env[a] = ("call", "std::default::Default::default", "Default::default", (), ce[4])
+                if not t["dest"]["p"]:
+                    env[t["dest"]["l"]] = old
 
     def _ret_from_fields(self, env, fenv):
         fs = sorted((k[1], v) for k, v in fenv.items() if k[0] == 0)
